@@ -176,7 +176,7 @@ Fixpoint in_domain_from (i : N) (l : list case) : list N :=
   | [] => []
   | CValue v _ _ _ :: r => if dom_value v then i :: in_domain_from (i + 1)%N r else in_domain_from (i + 1)%N r
   | CGraph ts _ _ _ _ _ _ :: r =>
-      if forallb dom_triple ts then i :: in_domain_from (i + 1)%N r else in_domain_from (i + 1)%N r
+      if forallb dom_graph_triple ts then i :: in_domain_from (i + 1)%N r else in_domain_from (i + 1)%N r
   | _ :: r => in_domain_from (i + 1)%N r
   end.
 
